@@ -70,12 +70,15 @@ enum Base {
     Multi,
     /// from_reader with shared anchors
     ReaderShared,
+    /// the streaming iterator over two documents that reuse the same anchor names, read into
+    /// shared RcAnchors (every item has its own anchor table)
+    IterShared,
 }
 use Base::*;
-const BASES: [Base; 24] = [
+const BASES: [Base; 25] = [
     ParseOk, AnchoredSyntaxFail, AnchoredTypeFail, FailInRcContext, FailInAliasReplay, BudgetBreach, BudgetExact,
     AliasLimitExact, SharedRc, SharedArc, Recursive, MissingField, UnknownField, RootStaticError, DupKey, IterAbandon,
-    IterFull, VisitorPanics, CaughtPanicInside, SerAnchors, SerFailWriter, ValidatedFail, Multi, ReaderShared,
+    IterFull, VisitorPanics, CaughtPanicInside, SerAnchors, SerFailWriter, ValidatedFail, Multi, ReaderShared, IterShared,
 ];
 
 /// the outer document of a nested call
@@ -552,6 +555,13 @@ fn run_base(b: Base) -> String {
             }
         }
         ReaderShared => shared_rc_obs(serde_saphyr::from_reader::<_, SharedRcDoc>(std::io::Cursor::new(SHARED_TEXT.as_bytes()))),
+        IterShared => {
+            let text = format!("{SHARED_TEXT}---\n{}", SHARED_TEXT.replace("n: 1", "n: 2"));
+            let mut r = std::io::Cursor::new(text.into_bytes());
+            let it = serde_saphyr::read::<_, SharedRcDoc>(&mut r);
+            let items: Vec<String> = it.take(5).map(shared_rc_obs).collect();
+            format!("{} items: {}", items.len(), items.join(" ;; "))
+        }
     }
 }
 
@@ -563,6 +573,7 @@ fn marker(b: Base) -> &'static [&'static str] {
     match b {
         ParseOk => &["OK {\"a\": [1, 2], \"b\": [3]}"],
         SharedRc | SharedArc | ReaderShared => &["OK n=[1, 1, 1] classes=[0, 0, 1, 1] counts=[2, 1]"],
+        IterShared => &["2 items: OK n=[1, 1, 1] classes=[0, 0, 1, 1] counts=[2, 1] ;; OK n=[2, 2, 2] classes=[0, 0, 1, 1] counts=[2, 1]"],
         Recursive => &["OK name=Aurelian coronator=Aurelian same=true"],
         Multi => &["OK n=[(1, 1), (2, 2)] classes=[0, 0, 1, 1]"],
         CaughtPanicInside => &["OK a-panicked=true n=[2, 3] classes=[0, 1]"],
@@ -898,14 +909,14 @@ impl Property for C15 {
         let mut s = a.clone();
         s.sort();
         s.dedup();
-        if s.len() != a.len() || a.len() != 52 {
-            return Err(format!("alphabet has {} symbols ({} distinct), expected 52", a.len(), s.len()));
+        if s.len() != a.len() || a.len() != 53 {
+            return Err(format!("alphabet has {} symbols ({} distinct), expected 53", a.len(), s.len()));
         }
         // (the exact-limit calls check themselves: their isolated observation must contain
         // "at-limit: OK" and "below: ERR")
         Ok(())
     }
-    /// libFuzzer input: a history of up to 12 calls, one byte per call over the 52-call alphabet
+    /// libFuzzer input: a history of up to 12 calls, one byte per call over the 53-call alphabet
     fn fuzz_decode(data: &[u8]) -> Option<(&'static str, Case, bool)> {
         let alpha = alphabet();
         let calls: Vec<Call> = data.iter().take(12).map(|x| alpha[*x as usize % alpha.len()]).collect();
